@@ -1,25 +1,12 @@
-use pvh::ast::*;
-use pvh::run::{self, Limits, Mode};
 fn main() {
-    pvh::guard::install();
-    // q0; u=1 v=2 w=3 a=4 p=5 r=6 ; m=7
-    let v = |i: u32| Term::Var(i);
-    let a = vec![
-        Goal::Fd(FdGoal::InFdRange(Term::list(vec![v(1), v(2), v(4), v(5), v(6)]), 0, 4)),
-        Goal::Fd(FdGoal::InFdRange(v(3), 2, 4)),
-        Goal::Fd(FdGoal::Lte(v(2), v(1))),
-        Goal::Fd(FdGoal::Lte(v(4), v(2))),
-        Goal::Eq(v(0), Term::list(vec![v(1), v(2), v(3), v(5)])),
-        Goal::Eq(Term::list(vec![v(5), v(3)]), Term::list(vec![v(6), v(4)])),
-    ];
-    let b = vec![Goal::Fresh(vec![7], vec![Goal::Call(Rel::Member, vec![v(7), Term::ints(&(100..121).collect::<Vec<i64>>())]), Goal::Eq(v(0), Term::list(vec![v(7)]))])];
-    let p = Program { nq: 1, body: vec![Goal::Conde(vec![vec![Goal::Fresh(vec![1, 2, 3, 4, 5, 6], a)], b])] };
-    println!("{}", p.show());
-    let first = run::run(&p, Mode::Bfs, Limits::all());
-    let mut diff = 0;
-    for _ in 0..60 {
-        let o = run::run(&p, Mode::Bfs, Limits::all());
-        if o.answers != first.answers { diff += 1; }
+    let text = std::fs::read_to_string("/tmp/c14run.out").unwrap();
+    for line in text.lines() {
+        if let Some(rest) = line.strip_prefix("CASE ") {
+            if let Some((id, js)) = rest.split_once(' ') {
+                if let Err(e) = serde_json::from_str::<pvh::pipeline::CaseOut>(js) {
+                    println!("case {} fails: {} :: {}", id, e, &js[..js.len().min(600)]);
+                }
+            }
+        }
     }
-    println!("{} answers; {} of 60 rebuilds differ", first.answers.len(), diff);
 }
